@@ -148,7 +148,7 @@ Proof.
   - pose proof H as H0. apply locs_sub_T in H0. destruct H0 as (Hn & Hi & Hl & Hr).
     assert (T0 : Forall touch_ok (tn (T nl l il it nn nb r) ++ ti (T nl l il it nn nb r))) by chain.
     cbn [split_t]. destruct (cmp s (ikey it)).
-    + cbn [mid_ok]. auto.
+    + cbn [mid_ok]. split; [chain | auto].
     + specialize (IHl s Hl). destruct (split_t cmp l s) as [[[ll m] lr] tl].
       destruct IHl as (A & B & C & D).
       destruct l as [|nl' a il' it' nn' nb' b].
@@ -392,7 +392,7 @@ Proof.
                  tn (T nl' l' il' it' nn' nb' r') ++ ti (T nl' l' il' it' nn' nb' r')).
     { rewrite (tn_sim _ _ Hfull), (ti_sim _ _ Hfull). reflexivity. }
     cbn [split_t]. rewrite <- Hk. destruct (cmp s (ikey it)).
-    + cbn [msim]. auto.
+    + cbn [msim]. rewrite T0, (tn_sim _ _ Hl), (tn_sim _ _ Hr). auto.
     + specialize (IHl l' s Hl).
       destruct (split_t cmp l s) as [[[ll m] lr] tl].
       destruct (split_t cmp l' s) as [[[ll' m'] lr'] tl'].
